@@ -59,7 +59,12 @@ def mk_candles(stream, xname="X"):
 
     out = []
     for r in stream:
-        c = Candle(open=r[1], high=r[2], low=r[3], close=r[4], volume=r[5], timestamp=wire.secs_to_ts(r[0]))
+        stamp = wire.secs_to_ts(r[0])
+        if stamp is not None and cm.TZOFF is not None:   # aware stamps with a fixed offset (cm.aware)
+            from datetime import timedelta, timezone
+
+            stamp = stamp.replace(tzinfo=timezone(timedelta(minutes=cm.TZOFF)))
+        c = Candle(open=r[1], high=r[2], low=r[3], close=r[4], volume=r[5], timestamp=stamp)
         if len(r) > 6 and r[6] is not None:
             c.indicators[xname] = r[6]
         out.append(c)
